@@ -127,7 +127,7 @@ UNITS += [
          block_sig="fn repair_snapshots_dry_run(repo: &VRepo, be: &VBe, config_file: &VConfig, opts: &RepairSnapshotsOptions, snapshots: Vec<SnapS>, dry_run: bool) -> (r: RusticResult<()>)",
          block_tail="",
          functions=["commands::repair::snapshots::repair_snapshots (dry run: whole body after the append-only guard)"],
-         rewrites=[
+         rewrites=[R_ERR,
              Rw("RepairState::new(opts, repo.index())", "RepairStateS::vnew(opts)", why="RepairState -> stub (the list of snapshots to delete is kept)"),
              Rw(r"TreeModifier::new\(be, repo\.index\(\), config_file, (?P<d>[^)]*)\)\?", r"TreeModifierS::vnew(be, config_file, \g<d>)?", regex=True, why="TreeModifier::new -> stub carrying the dry-run flag it was given"),
              Rw("for mut snap in snapshots {", "for s in it: snapshots.iter() { let mut snap = vclone_snap(s);", why="by-value iteration with mutation -> by reference + clone; Verus for-loop syntax"),
@@ -153,7 +153,7 @@ UNITS += [
          block_sig="fn hotcold_dry_run(repo: &VRepoH, repo_hot: &VBeH, file_type: FileTypeH, missing_hot: Vec<IdH>, missing_hot_size: u64, missing_cold: Vec<IdH>, missing_cold_size: u64, dry_run: bool) -> (r: RusticResult<()>)",
          block_tail="",
          functions=["commands::repair::hotcold::correct_missing_files (dry run: the two copy phases)"],
-         rewrites=[
+         rewrites=[R_ERR,
              Rw(r"repo\.progress_bytes\(&format!\([^;]*?\)\)", "repo.vprogress_bytes()", regex=True, count=None, why="progress bar with a formatted label -> stub"),
              Rw(r"copy\((?P<f>\w+), file_type, (?P<a>[^,]+), (?P<b>[^,]+), &p\)\?", r"vcopy_files(\g<f>, file_type, \g<a>, \g<b>, &p, Ghost(dry_run))?", regex=True, count=None,
                 why="hotcold::copy (reads from one part, writes to the other) -> effectful stub: REQUIRES !dry_run"),
@@ -168,7 +168,7 @@ UNITS += [
     # the TreeModifier units above (Rewriter::new hands opts.dry_run to TreeModifier::new: not a unit)
     Unit(name="rewrite_dry_run", file=RWR, anchor="fn process_snapshots<S: Open>(", ret_name="r",
          functions=["commands::rewrite::process_snapshots (dry run)"],
-         rewrites=[
+         rewrites=[R_ERR,
              Rw("fn process_snapshots<S: Open>(", "fn process_snapshots(", sig=True, why="Repository<S> -> stub"),
              Rw("repo: &Repository<S>,", "repo: &VRepo,", sig=True, why="Repository<S> -> stub"),
              Rw("mut snapshots: Vec<SnapshotFile>,", "snapshots: Vec<SnapS>,", sig=True, why="SnapshotFile -> stub; the tag bookkeeping that needs `mut` is elided"),
